@@ -126,7 +126,9 @@ def body(neg, coef, t):
     except ref.Refused:
         return hx.rejected()     # outside the encodable domain of the property (scale/32-bit)
     ok, got = rt(d, t, %(tl)d)
-    return ok and type(got) is decimal.Decimal and got == d and got.is_signed() == (d.is_signed() and d != 0)
+    ok = ok and type(got) is decimal.Decimal and got == d and got.is_signed() == (d.is_signed() and d != 0)
+    # the decoded value re-encodes to the same octets (scale preserved, e.g. 1.10 stays 1.10)
+    return ok and list(encode.encode_table_value(got)) == list(encode.encode_table_value(d))
 '''
 LEAF_DEC_STR = '''
 def body(neg, t):
@@ -134,7 +136,8 @@ def body(neg, t):
     if neg:
         d = -d
     ok, got = rt(d, t, %(tl)d)
-    return ok and type(got) is decimal.Decimal and got == d
+    return (ok and type(got) is decimal.Decimal and got == d
+            and list(encode.encode_table_value(got)) == list(encode.encode_table_value(d)))
 '''
 LEAF_DT = '''
 def body(wall, us, off, o1, o2, t):
@@ -275,7 +278,7 @@ def partitions(tier, seed):
                           bound='sign x coefficient 0..%d x exponent %d (enumerated by realization)' % (top, exp),
                           rep={'neg': True, 'coef': 15, 't': trep}))
     for i, lit in enumerate(['2147483647', '2147483648', '21474836.47', '1E-255', '1E-256', '0.0000001',
-                             '1.5', '10', '0.10', '1E+2', '123456.789']):
+                             '1.5', '10', '0.10', '1E+2', '123456.789', '1.10', '250.00', '0.00']):
         body = LEAF_DEC_STR % {'tl': tl, 'lit': lit}
         if lit in ('2147483648', '1E-256'):
             body = body.replace('    ok, got = rt(d, t, %d)' % tl,
